@@ -256,6 +256,16 @@ func IVal(i Term) Term         { return selField(i, "mkiface", 1, "ival", SPtr) 
 func MkIface(t, v Term) Term   { return App(SIface, "mkiface", t, v) }
 func SliceElemPtr(s, i Term) Term { return ElemPtr(SBase(s), Add(SOff(s), i)) }
 
+// SliceElemPtrT addresses element i of a slice whose elements are structs: the index goes through
+// the uninterpreted eidx(off,i) (= off+i by a prelude axiom) so that quantified contracts over such
+// slices get a reliable E-matching trigger instead of an arithmetic term.
+func SliceElemPtrT(s, i Term, structElem bool) Term {
+	if !structElem {
+		return SliceElemPtr(s, i)
+	}
+	return ElemPtr(SBase(s), App(SInt, "eidx", SOff(s), i))
+}
+
 const prelude = `(set-option :produce-models true)
 (declare-datatypes ((Path 0)) (((PNil) (PFld (pfp Path) (pfi Int)) (PElem (pep Path) (pei Int)))))
 (declare-datatypes ((Ptr 0)) (((mkptr (root Int) (path Path)))))
